@@ -37,6 +37,8 @@ where
         let _ = feed(&mut copy, &h[i..].to_vec());
         let garbage = gen_random::<S>(&mut case.rng, 3, 4);
         let _ = feed(&mut copy, &garbage);
+        // query the clone first: whatever it computes or caches is its own business
+        let _ = observe::<S, T>(&copy);
         let after = observe::<S, T>(&original);
         case.add("clone_points_checked", 1);
         if before != after || kept != original {
@@ -49,6 +51,17 @@ where
         drop(copy);
         if i < h.len() {
             let _ = feed(&mut original, &h[i..i + 1].to_vec());
+            // ... and the other way round: the original moves on and is queried; the clone taken
+            // before must still report what the original reported then
+            let _ = observe::<S, T>(&original);
+            let kept_now = observe::<S, T>(&kept);
+            if kept_now != before {
+                case.violation(
+                    &format!("C14/{}/{}/recording-into-the-original-alters-an-earlier-clone", tname, S::NAME),
+                    json!({"history": history_json(init, h), "clone_taken_after_event": i, "before": before.0, "after": kept_now.0}),
+                );
+                return;
+            }
         }
     }
 }
